@@ -7,4 +7,7 @@ from ._arith import arithmetic
 
 def run(ctx):
     kernels(ctx)
+    from ..scen_ctx import contexts
+    from ..scen_misc import pipe, variable_get, function_names
+    contexts(ctx); pipe(ctx); variable_get(ctx); function_names(ctx)
     arithmetic(ctx, which=None if not ctx.quick else ['add', 'divide', 'abs'])
